@@ -17,6 +17,31 @@ NOT_APPLICABLE = {
 
 # property id -> dict(level, text, note, technique, design_ref, module)
 CLAIMED = {
+    "C03": dict(
+        level="exploration",
+        technique="deterministic simulation: seeded histories of filter-setting edits and applications against a stateless specification (independent even-odd polygon test), fresh-dataset cross-check",
+        design_ref="DESIGN.md section 4 (C03)",
+        text=("Seeded histories (<=60 operations) of range set/change/remove (reversed, equal, tied with data values), polygon add/"
+              "modify-in-place/invert/remove, invalid-removal and enable toggles, event limit set/clear, manual exclusions, reset and "
+              "apply (also forced) run on dict- and file-backed datasets with NaN/inf data; after every apply filter.all/box/polygon/"
+              "invalid must equal a stateless evaluation of the current settings, the event limit must keep exactly min(L, q) "
+              "qualifying events reproducibly, and a freshly built dataset given the same final settings must select the same events."),
+        note=("Sampling. Trusted: the stateless specification in checks/c03.py; polygon axes hold finite values and points within "
+              "1e-12*scale of an edge are not judged; the invalid-value clause uses the scalar features the dataset lists."),
+    ),
+    "C04": dict(
+        level="exploration",
+        technique="deterministic simulation: per-level actors interleaved by a seeded scheduler over a hierarchy of depth 1..4, refresh of the youngest as synchronisation point, model of per-child excluded root events",
+        design_ref="DESIGN.md section 4 (C04)",
+        text=("One owner per hierarchy level edits filters (ranges, polygons), excludes events manually, reads features without "
+              "refresh, assigns temporary features, changes root configuration, creates deeper children and applies filters on "
+              "intermediate levels, in an order chosen by the seeded scheduler; after every refresh of the youngest member each "
+              "level must have as many events as its parent selects, every feature kind must equal the parent's feature restricted "
+              "to the selection, and each child's manual flags must be False exactly for the root events its owner excluded "
+              "(including events that were hidden by an ancestor and came back)."),
+        note=("Sampling. Manual edits are exclusions only; positional operations on a child are issued only when it is synchronised "
+              "with its ancestors; reads between refreshes are not judged."),
+    ),
     "C19": dict(
         level="exploration",
         technique="deterministic simulation: seek/tell/read histories through HTTPFile/S3File against an in-process RFC 7233 range server behind a fault-injecting requests transport (drops, connect/read timeouts on a virtual clock), byte-exact model",
@@ -75,7 +100,7 @@ CLAIMED = {
 
 # properties whose checks are still under construction (kept in not_applicable with that
 # reason until the check exists, so that MANIFEST.json is valid and honest at every commit)
-PENDING = ["C02", "C03", "C04", "C06", "C07", "C08", "C09", "C10", "C13", "C14", "C17"]
+PENDING = ["C02", "C06", "C07", "C08", "C09", "C10", "C13", "C14", "C17"]
 for _p in PENDING:
     if _p not in CLAIMED:
         NOT_APPLICABLE[_p] = "not claimed yet: check under construction (designed in DESIGN.md section 4; will be claimed once its machinery is committed)"
